@@ -232,6 +232,8 @@ def plan(tier, seed):
         specs.append(dict(name="streams-%d" % i, kind="streams", n=1000 if tier == "quick" else 40000))
     for i in range(6):
         specs.append(dict(name="fault+silence-%d" % i, kind="fault+silence", part=i, tier=tier))
+    # once more with the library's debug tracing switched on
+    specs.append(dict(name="tracing-streams", kind="streams", n=150 if tier == "quick" else 4000, tracing=True))
     return specs
 
 
